@@ -161,12 +161,54 @@ Definition fobs_eqb (a b : fobs) : bool :=
 Definition kobs_eqb (a b : kobs) : bool :=
   blist_eqb (ko_gets a) (ko_gets b) && beq (ko_string a) (ko_string b).
 
-(** model vs observed, one projection (C08 part) *)
-Definition proj_corr (p : projection) (o : pobs) : bool :=
+(** The harness numbers the Keys of a projection by first appearance among the
+    Keys the calls RETURNED; the model numbers them by creation. ProjectValues
+    of a result without values through a projection without .unit interns the
+    row and returns nothing, so the numberings can differ: [seen], per
+    projection, lists the model's key indices in order of first appearance. *)
+Fixpoint pos_in (x : nat) (l : list nat) (i : nat) : option nat :=
+  match l with [] => None | y :: l' => if Nat.eqb x y then Some i else pos_in x l' (S i) end.
+
+Definition see (l : list nat) (k : nat) : list nat * nat :=
+  match pos_in k l 0 with Some i => (l, i) | None => (l ++ [k], length l) end.
+
+Fixpoint see_all (l : list nat) (ks : list nat) : list nat * list nat :=
+  match ks with
+  | [] => (l, [])
+  | k :: ks' => let '(l1, i) := see l k in let '(l2, r) := see_all l1 ks' in (l2, i :: r)
+  end.
+
+Fixpoint put_nth {A} (d : A) (n : nat) (v : A) (l : list A) : list A :=   (* pads with d *)
+  match n, l with
+  | O, [] => [v]
+  | O, _ :: t => v :: t
+  | S n', [] => d :: put_nth d n' v []
+  | S n', x :: t => x :: put_nth d n' v t
+  end.
+
+Definition op_pi (o : op) : option nat :=
+  match o with OpProject pi _ | OpProjectValues pi _ => Some pi | _ => None end.
+
+Fixpoint renumber (ops : list op) (mo : list out) (seen : list (list nat)) : list (list Z) * list (list nat) :=
+  match ops, mo with
+  | o :: ops', x :: mo' =>
+      match x, op_pi o with
+      | OutKeys ks, Some pi =>
+          let '(l, r) := see_all (nth pi seen []) ks in
+          let '(rest, seen') := renumber ops' mo' (put_nth [] pi l seen) in
+          (map Z.of_nat r :: rest, seen')
+      | _, _ => let '(rest, seen') := renumber ops' mo' seen in (out_code x :: rest, seen')
+      end
+  | _, _ => ([], seen)
+  end.
+
+(** model vs observed, one projection (C08 part); [sn]: the model's key index
+    of each observed key number *)
+Definition proj_corr (p : projection) (sn : list nat) (o : pobs) : bool :=
   list_eqb fobs_eqb (obs_fields p) (po_fields o)
   && blist_eqb (map (field_name p) (flat p)) (po_flat o)
-  && list_eqb kobs_eqb (obs_keys p) (po_keys o)
-  && forallb (fun '(ks, got) => nat_list_eqb (obs_nonsing p ks) got) (po_nonsing o).
+  && list_eqb kobs_eqb (map (fun k => nth k (obs_keys p) (mkKO [] [])) sn) (po_keys o)
+  && forallb (fun '(ks, got) => nat_list_eqb (obs_nonsing p (map (fun k => nth k sn O) ks)) got) (po_nonsing o).
 
 Fixpoint forallb2 {A B} (f : A -> B -> bool) (a : list A) (b : list B) : bool :=
   match a, b with
@@ -177,7 +219,12 @@ Fixpoint forallb2 {A B} (f : A -> B -> bool) (a : list A) (b : list B) : bool :=
 
 Definition run_corr (ops : list op) (outs : list (list Z)) (obs : list pobs) : bool :=
   let '(w, mo) := run_ops new_world ops in
-  zll_eqb (map out_code mo) outs && forallb2 proj_corr (w_projs w) obs.
+  let '(codes, seen) := renumber ops mo [] in
+  zll_eqb codes outs
+  && forallb2 (fun pi o => match nth_error (w_projs w) pi with
+                           | Some p => proj_corr p (nth pi seen []) o
+                           | None => false end)
+              (seq 0 (length (w_projs w))) obs.
 
 Definition corr_ok (c : case) : bool :=
   match c with
@@ -359,6 +406,12 @@ Fixpoint lossless_ok (ex : list expr) (rs : list (result * list (list Z))) : boo
       forallb (fun '(b, kb) => Bool.eqb (zll_eqb ka kb) (same_info ex a b)) rs' && lossless_ok ex rs'
   end.
 
+(** a result without values gets no Key at all from a ParseWithUnit projection
+    (ProjectValues returns one Key per value), so when some expression carries
+    .unit the pairwise comparison is made over the results that have values *)
+Definition judged (ex : list expr) (rs : list (result * list (list Z))) : list (result * list (list Z)) :=
+  if existsb e_unit ex then filter (fun x => negb (is_nil (r_units (fst x)))) rs else rs.
+
 Definition prop_ok (c : case) : bool :=
   match c with
   | CFree _ _ obs _ => forallb generic_ok obs
@@ -368,8 +421,8 @@ Definition prop_ok (c : case) : bool :=
          | [] => true
          | r0 :: rest =>
              forallb (same_across ex r0) rest
-             && lossless_ok ex (combine st (chunks (S (length ex))
-                                  (skipn (S (length (pr_perm r0))) (pr_outs r0)) (length st)))
+             && lossless_ok ex (judged ex (combine st (chunks (S (length ex))
+                                  (skipn (S (length (pr_perm r0))) (pr_outs r0)) (length st))))
          end
   end.
 
